@@ -91,6 +91,12 @@ func SimShutdown(srv *http.Server, ctx context.Context) error {
 
 // HTTPDo sends a request to the simulated address; refused reports that nothing is listening.
 func (s *Sim) HTTPDo(addr string, req *http.Request) (status int, body string, refused bool) {
+	return s.HTTPDoWatch(addr, req, nil)
+}
+
+// HTTPDoWatch is HTTPDo for a streaming response: onWrite sees every chunk the handler writes, as
+// the client at the other end of the connection would (it may react, e.g. by hanging up).
+func (s *Sim) HTTPDoWatch(addr string, req *http.Request, onWrite func(chunk []byte)) (status int, body string, refused bool) {
 	s.yield("simhttp.Do")
 	e := s.ports()[addr]
 	if e == nil || e.down {
@@ -98,7 +104,7 @@ func (s *Sim) HTTPDo(addr string, req *http.Request) (status int, body string, r
 	}
 	e.inflight++
 	rec := httptest.NewRecorder()
-	g := &guardedWriter{ResponseRecorder: rec, s: s, path: req.URL.Path}
+	g := &guardedWriter{ResponseRecorder: rec, s: s, path: req.URL.Path, onWrite: onWrite}
 	func() {
 		defer func() {
 			g.finished = true
@@ -121,6 +127,7 @@ type guardedWriter struct {
 	s        *Sim
 	path     string
 	finished bool
+	onWrite  func([]byte)
 }
 
 func (g *guardedWriter) late(what string) {
@@ -135,7 +142,11 @@ func (g *guardedWriter) Write(b []byte) (int, error) {
 	if g.finished {
 		g.late("written to")
 	}
-	return g.ResponseRecorder.Write(b)
+	n, err := g.ResponseRecorder.Write(b)
+	if g.onWrite != nil {
+		g.onWrite(b)
+	}
+	return n, err
 }
 
 func (g *guardedWriter) Flush() {
